@@ -1,4 +1,4 @@
-from checks import mibcompile, oidindex, atomicwrite, searcher, readerlookup, history
+from checks import mibcompile, oidindex, atomicwrite, searcher, readerlookup, history, oidtree
 
 RULE_MC = ('scenario = terminal state of MibCompile.tla exported by TLC (request x lazily chosen answers of every '
            'component x options); non-trivial = at least one component answered with a failure / fresh / borrow; '
@@ -50,3 +50,6 @@ REGISTRY['C19'] = {'run': _c19, 'replay': _c19_replay, 'finish': {'rule': RULE_M
 
 REGISTRY['C12'] = {'run': history.run, 'replay': history.replay, 'finish': {
     'rule': 'history = sequence of inputs (13 valid/invalid MIB texts) fed to one instance of a kind (parser x2 dialects, symbol-table generator, JSON/pysnmp generator, compiler, same tree twice), enumerated by History.tla; non-trivial = length >= 2; distinct by (kind, history); plus one run per hash seed', 'exhaustive': True}}
+
+REGISTRY['C01'] = {'run': oidtree.run, 'replay': oidtree.replay, 'finish': {
+    'rule': 'scenario = reachable state of OidTree.tla (modules x parent choice x root spelling x sub-identifier spelling x declaration kind x insertion position); non-trivial = at least two declarations; distinct by (nodes, declaration order)', 'exhaustive': False}}
